@@ -15,6 +15,7 @@ HARNESS_TARGETS = {
     "protocol": "pkg/protocol",
     "clienthttp": "internal/clienthttp",
     "scheduler": "internal/scheduler",
+    "thruservmain": "cmd/thruserv",      # white-box tests of the server's connection handler (package main)
     "srv": "internal/verifsrv",          # drives the real thruserv binary
     "e2e": "internal/verife2e",          # drives the real thru binaries
 }
@@ -292,6 +293,9 @@ CHECKS = {
         "assumptions": ["hook points are the only preemption points considered"],
         "exhaustive_if_units": ["exhaustive"],
         "units": [
+            {"name": "handler", "pkg": "./cmd/thruserv", "run": "^TestVerifC11Handler",
+             "quick": {"checks": 1, "shards": 1, "timeout": 900},
+             "thorough": {"checks": 1, "shards": 1, "timeout": 900}},
             {"name": "peers", "pkg": "./internal/peers", "run": "^TestVerifC11",
              "quick": {"checks": 8000, "shards": 4, "timeout": 900},
              "thorough": {"checks": 20000, "shards": 16, "timeout": 3400}},
@@ -566,6 +570,21 @@ _FLIP = (" A sixth of the interruptions are of the kind 'flip': the receiver pro
          "the same file in its hands' (about 40 such late writes per quick run).")
 CHECKS["C04"]["level_text"] += _FLIP
 CHECKS["C05"]["level_text"] += _FLIP
+CHECKS["C14"]["level_text"] += (" Message sizes are exact on the wire and drawn around the limit (limit-17 ... limit+64). Request rates: websocket connects "
+                                "and session creations are hammered from one address for 1.2 s against --ws-connects-per-min / --session-creates-per-min "
+                                "(admitted <= burst + rate*elapsed + 1; 0 = unlimited).")
+CHECKS["C15"]["level_text"] += (" The decoder ring also feeds announced counts that agree with each other (chunk count and bitmap length) and lengths that "
+                                "are whole multiples of the readers' 64 KiB step with all but the last step delivered; every decoder call runs under a "
+                                "6 s watchdog, so a decoder that does not return on ended input is a violation and not a harness time-out.")
+CHECKS["C09"]["level_text"] += (" Candidate lists also contain an address in another spelling ([::ffff:a.b.c.d]:p, expanded IPv6).")
+CHECKS["C12"]["level_text"] += (" Injected transfer failures include errors that wrap context.Canceled / DeadlineExceeded while the run's own context is "
+                                "alive; a slot that stays taken for a receiver without a running transfer for 26 s is a violation.")
+CHECKS["C17"]["level_text"] += (" Unit 'sched' (package scheduler) plays the sender's protocol against the real HybridScheduler (Next when a slot is free, "
+                                "Add with StartedAt, UpdateRemaining, Remove) for generated slot counts, small-slot fractions, size classes, completion "
+                                "orders and clocks: no file handed out twice, and with nothing active and files waiting one must be handed out. The "
+                                "generated transfers of C01/C03/C17 draw the scheduler's size-class thresholds relative to the chunk size.")
+CHECKS["C18"]["level_text"] += (" Manifest root names that are not UTF-8 are generated as well.")
+CHECKS["C04"]["level_text"] += (" In half of the real-binary cases both prompt answers are on the join's standard input from the start (scripted use).")
 CHECKS["C01"]["level_text"] += (" Unit 'e2e' runs the complete applications over real QUIC (thruserv, `thru host`, `thru join` as processes): "
                                 "whenever `thru join` exits 0 its output directory must hold exactly the hosted tree.")
 CHECKS["C12"]["level_text"] += (" Unit 'e2e' uses the real binaries: `thru host --max-receivers M` (M = 1, 2) serves M+1 or M+2 receivers that "
